@@ -28,7 +28,7 @@ func runC04(c *core.Ctx) {
 	c.Rule("R3", "readers never see tombstones: closed census of ValueDesc.value accesses; get = Clone + RemoveTombstones(zero) on every non-nil path; reader exits receive get's result", 11)
 	c.Rule("R4", "RemoveTombstones call sites: zero-limit on the clone in get; retention-bounded (now - LeftIngestersTimeout, under LeftIngestersTimeout > 0) in mergeValueForKey; nowhere else", 3)
 	c.Rule("R5", "RemoveTombstones implementations delete ⇔ tombstone ∧ (limit.IsZero() ∨ timestamp.Before(limit))", 3)
-	c.Rule("R6", "push/pull (LocalState) encodes the stored value with its tombstones", 1)
+	c.Rule("R6", "push/pull (LocalState) encodes the stored value with its tombstones, freshly on every call", 2)
 
 	fns := mergeFns(c, "R1")
 	for _, sp := range lwwSpec {
@@ -476,6 +476,51 @@ func c04LocalState(c *core.Ctx, R string) {
 				found = true
 				ac := ls.Canon(call.Expr.Args[0])
 				c.Check(ac == "each(recv.store).value", R, "func=(*KV).LocalState:encode", call.Expr.Pos(), "encoded value is "+ac+" (the stored value itself, tombstones included)", 1)
+				// the bytes sent for the key are that encoding, computed in this very pass (no cached or derived bytes)
+				want := ls.Canon(call.Expr) + "#0"
+				ls.InspectShallow(func(n ast.Node) bool {
+					// the pair's Value is set either by an assignment kvPair.Value = X or in a literal KeyValuePair{Value: X}
+					var valExpr ast.Expr
+					var at ast.Node
+					switch x := n.(type) {
+					case *ast.AssignStmt:
+						if len(x.Lhs) == 1 && len(x.Rhs) == 1 {
+							if sel, ok := an.Unparen(x.Lhs[0]).(*ast.SelectorExpr); ok && sel.Sel.Name == "Value" {
+								if t := ls.Info().TypeOf(sel.X); t != nil && strings.HasSuffix(t.String(), "KeyValuePair") {
+									valExpr, at = x.Rhs[0], x
+								}
+							}
+						}
+					case *ast.CompositeLit:
+						if t := ls.Info().TypeOf(x); t != nil && strings.HasSuffix(t.String(), "KeyValuePair") {
+							for _, el := range x.Elts {
+								if kv, ok := el.(*ast.KeyValueExpr); ok {
+									if id, ok := kv.Key.(*ast.Ident); ok && id.Name == "Value" {
+										valExpr, at = kv.Value, stmtOf(ls, x)
+									}
+								}
+							}
+						}
+					}
+					if valExpr == nil || at == nil {
+						return true
+					}
+					as := &ast.AssignStmt{Rhs: []ast.Expr{valExpr}}
+					asPos := at
+					g := ls.Graph()
+					vals := map[string]bool{}
+					if obj := ls.ObjOf(as.Rhs[0]); obj != nil && ls.DefCount(obj) > 1 {
+						ex := g.Exec(g.EntryLoc(), []an.Loc{g.Locate(asPos)}, func(ast.Expr, an.Store) an.Tri { return an.U }, an.ExecOpts{Watch: obj, Unroll: 1})
+						for v := range ex.Vals[0] {
+							vals[v] = true
+						}
+					} else {
+						vals[ls.Canon(as.Rhs[0])] = true
+					}
+					okv := len(vals) == 1 && vals[want]
+					c.Check(okv, R, "func=(*KV).LocalState:payload", asPos.Pos(), fmt.Sprintf("the value bytes of every pair sent are codec.Encode(stored value) of this pass (%v): a copy kept from an earlier call could miss changes that did not bump the version", keys(vals)), 1)
+					return true
+				})
 			}
 		}
 		if !found {
